@@ -21,11 +21,21 @@ TRUSTED = [
     "datetime theory D5: int(td.total_seconds()) == td div 1s for 0 <= td <= 61 s (range side condition is a proved obligation)",
     "datetime theory D6: for an aware x, x.astimezone(tz) depends only on the instant x denotes and on tz, and x.astimezone(pytz.UTC) is that instant in UTC; on a naive x astimezone() uses the host's local zone (unmodelled: fresh value)",
     "naive.replace(tzinfo=pytz.UTC) keeps the wall value as the UTC instant",
-    "pycron.is_now(expr, dt): uninterpreted predicate of (expr, dt); may raise ValueError",
+    "pycron.is_now(expr, dt): uninterpreted predicate of (expr, wall-clock value of dt) - it reads only dt's wall fields; may raise ValueError",
+    "datetime theory D7: datetime.timezone(td) / pytz.FixedOffset(minutes) are fixed-offset zones (ValueError outside +-24 h); aware.astimezone(fixed zone) denotes the same instant and its wall clock reads instant + offset; the wall clock of a UTC-zoned datetime reads its instant; of any other zone: uninterpreted",
     "pytz.timezone(name): uninterpreted, may raise KeyError (UnknownTimeZoneError); dt.astimezone(tz): uninterpreted function of (dt, tz)",
     "attribute reads on ScheduledTask have no side effects",
 ]
-is_now = Function('is_now', Val, Val, BoolSort())
+# pycron.is_now(expr, dt) reads only the WALL-CLOCK fields of dt (minute, hour, day, month, weekday): it is a predicate of the expression and of the
+# wall value. For a UTC-zoned datetime the wall value is the instant; for a datetime in a fixed-offset zone it is instant + offset (D7); for every
+# other zone (pytz.timezone(name)) it is an uninterpreted function of the datetime value.
+_is_now_w = Function('is_now', Val, IntSort(), BoolSort())
+_wall = Function('wall_clock_us', Val, IntSort())
+def wallv(v): return If(And(Val.is_dt(v), Val.tz(v) == 0), Val.us(v), _wall(v))
+def is_now(c, v): return _is_now_w(c, wallv(v))
+class FixedZone:
+    """datetime.timezone(td) / pytz.FixedOffset(minutes): a zone whose utcoffset is the constant off_us"""
+    def __init__(self, off_us): self.off_us = off_us
 _astz_inst = Function('astimezone_of_instant', IntSort(), Val, Val)
 _astz_naive = Function('astimezone_of_naive', Val, Val, Val)
 def astz(v, tz):
@@ -45,12 +55,15 @@ class Ex(Exec):
     def ev_Attribute(self, e, st, k, K):
         p = ast.unparse(e)
         if p == 'pytz.UTC': return k(st, UTC)
-        if isinstance(e.value, ast.Name) and e.value.id in st.env and is_expr(st.env[e.value.id]) and st.env[e.value.id].sort() == Val and e.attr in ('microseconds', 'tzinfo', 'seconds', 'days'):
-            base = st.env[e.value.id]
-            if e.attr == 'microseconds': return k(st, PyInt(Val.tus(base) % US))
-            if e.attr == 'seconds': return k(st, PyInt((Val.tus(base) / US) % 86400))
-            if e.attr == 'days': return k(st, PyInt(Val.tus(base) / (86400 * US)))
-            if e.attr == 'tzinfo': return k(st, If(Val.aware(base), Val.ref(Val.tz(base) + 1000), Val.none))
+        if e.attr in ('microseconds', 'tzinfo', 'seconds', 'days') and ((isinstance(e.value, ast.Name) and e.value.id in st.env and is_expr(st.env[e.value.id]) and st.env[e.value.id].sort() == Val)
+                                                                         or (isinstance(e.value, ast.Attribute) and isinstance(e.value.value, ast.Name) and e.value.value.id == 'task' and isinstance(st.env.get('task'), dict))):
+            def on_base(s1, base):
+                base = to_val(base)
+                if e.attr == 'microseconds': return k(s1, PyInt(Val.tus(base) % US))
+                if e.attr == 'seconds': return k(s1, PyInt((Val.tus(base) / US) % 86400))
+                if e.attr == 'days': return k(s1, PyInt(Val.tus(base) / (86400 * US)))
+                if e.attr == 'tzinfo': return k(s1, If(Val.aware(base), Val.ref(Val.tz(base) + 1000), Val.none))
+            return self.ev(e.value, st, on_base, K)
         if isinstance(e.value, ast.Name) and e.value.id == 'task' and isinstance(st.env.get('task'), dict):
             if e.attr in ('schedule_id', 'task_name', 'labels', 'args', 'kwargs', 'source'): return k(st, Const('task_' + e.attr + '_opaque', Val))          # fields the statement does not mention (used for log texts): opaque, constant per task
             if e.attr not in st.env['task']: raise Unsupported("attribute of ScheduledTask outside the contract: " + p)
@@ -82,6 +95,10 @@ class Ex(Exec):
                 a, b = self.as_int(l), self.as_int(r)
                 if isinstance(e.op, ast.Add): return k(st2, PyInt(a + b))
                 if isinstance(e.op, ast.Sub): return k(st2, PyInt(a - b))
+                if isinstance(e.op, ast.Mult): return k(st2, PyInt(a * b))
+                # // and % by a positive integer literal: z3's integer div/mod are Euclidean, which coincides with Python's floor division for b > 0
+                if isinstance(e.op, (ast.FloorDiv, ast.Mod)) and isinstance(r, int) and not isinstance(r, bool) and r > 0:
+                    return k(st2, PyInt(a / b if isinstance(e.op, ast.FloorDiv) else a % b))
                 raise Unsupported("binary operator " + ast.unparse(e))
             lv, rv = to_val(l), to_val(r)
             if isinstance(e.op, ast.Add):
@@ -120,7 +137,9 @@ def h_is_now(ex, st, e, recv, args, kw, k, K):
     f = st.fork(); setG(f, raised_by='is_now'); K['exc'](f, new_exc(f, 'ValueError'))
 def h_timedelta(ex, st, e, recv, args, kw, k, K):
     unit = {'microseconds': 1, 'milliseconds': 1000, 'seconds': US, 'minutes': 60 * US, 'hours': 3600 * US, 'days': 86400 * US, 'weeks': 7 * 86400 * US}
-    if args: raise Unsupported("positional timedelta arguments")
+    order = ['days', 'seconds', 'microseconds', 'milliseconds', 'minutes', 'hours', 'weeks']          # positional order of datetime.timedelta
+    if len(args) > len(order) or any(order[i] in kw for i in range(len(args))): raise Unsupported("timedelta arguments")
+    kw = dict(kw, **{order[i]: a for i, a in enumerate(args)})
     tot = IntVal(0)
     for kx, v in kw.items():
         if kx not in unit: raise Unsupported("timedelta keyword " + kx)
@@ -135,7 +154,28 @@ def h_int(ex, st, e, recv, args, kw, k, K):
         oblige(st, "get_task_delay/range@int(total_seconds()): 0 <= delay <= 61 s (float conversion exact)  [C14/C15]", And(tus >= 0, tus <= 61 * US))
         return k(st, PyInt(tus / US))
     return k(st, PyInt(ex.as_int(v)))
+def h_fixed_zone(ex, st, e, recv, args, kw, k, K):
+    """datetime.timezone(offset: timedelta) - ValueError unless -24 h < offset < 24 h; pytz.FixedOffset(minutes: int) - ValueError unless |minutes| < 1440"""
+    name = ast.unparse(e.func)
+    if len(args) != 1 or kw: raise Unsupported("fixed-offset zone arguments: " + ast.unparse(e))
+    if name.endswith('FixedOffset'):
+        off = ex.as_int(args[0]) * 60 * US; isok = BoolVal(True) if isinstance(args[0], (PyInt, int)) else Val.is_intv(to_val(args[0]))
+    else:
+        v = to_val(args[0]); off = Val.tus(v); isok = Val.is_td(v)
+    def typed(s1):
+        def ok(s2): return k(s2, FixedZone(off))
+        def bad(s2): setG(s2, raised_by=name + ' (offset out of range)'); return K['exc'](s2, new_exc(s2, 'ValueError'))
+        return ex.branch(s1, And(off > -86400 * US, off < 86400 * US), ok, bad)
+    def untyped(s1): setG(s1, raised_by=name + ' (argument type)'); return K['exc'](s1, new_exc(s1, 'TypeError'))
+    return ex.branch(st, isok, typed, untyped)
 def h_astimezone(ex, st, e, recv, args, kw, k, K):
+    if len(args) == 1 and isinstance(args[0], FixedZone):
+        # D7: aware.astimezone(fixed zone) is the same instant; its wall clock reads instant + offset
+        b = to_val(recv); r = fresh('in_fixed_zone')
+        def aw(s1):
+            s1.pc += [Val.is_dt(r), Val.us(r) == Val.us(b), Val.aware(r), Val.tz(r) != 0, _wall(r) == Val.us(b) + args[0].off_us]; return k(s1, r)
+        def nv(s1): return k(s1, fresh('astimezone_of_a_naive_value_uses_the_host_zone'))
+        return ex.branch(st, And(Val.is_dt(b), Val.aware(b)), aw, nv)
     if len(args) == 1 and args[0] is UTC or (is_expr(args[0]) and is_expr(UTC) and args[0].eq(UTC)):
         # D6: aware.astimezone(UTC) is the same instant expressed in UTC; on a NAIVE value astimezone() assumes the host's local zone (not modelled: fresh value)
         b = to_val(recv); return k(st, If(Val.aware(b), Val.dt(Val.us(b), BoolVal(True), IntVal(0)), fresh('astimezone_of_a_naive_value_uses_the_host_zone')))
@@ -178,7 +218,7 @@ def generate(src):
     if extra and not (len(fdef.args.defaults) == 1 and isinstance(fdef.args.defaults[0], ast.Constant) and fdef.args.defaults[0].value is None):
         raise Unsupported("get_task_delay signature (extra parameter without default None): " + ast.unparse(fdef.args))
     H = {'logger.*': noop, 'datetime.now': h_now, 'isinstance': h_isinstance, 'is_now': h_is_now, 'timedelta': h_timedelta, 'to_tz_aware': h_to_tz_aware,
-         'int': h_int, '*.astimezone': h_astimezone, 'pytz.timezone': h_pytz_timezone, '*.replace': h_replace, '*.total_seconds': h_total_seconds}
+         'int': h_int, '*.astimezone': h_astimezone, 'timezone': h_fixed_zone, 'datetime.timezone': h_fixed_zone, 'pytz.FixedOffset': h_fixed_zone, 'FixedOffset': h_fixed_zone, 'pytz.timezone': h_pytz_timezone, '*.replace': h_replace, '*.total_seconds': h_total_seconds}
     ex = Ex(H, src); ex.inline_scope = (src, REL, None)          # helpers of the same file without a contract are executed with their real body
     W = {'now_us': now_us, 'cron': task['cron'], 'cron_offset': task['cron_offset'], 'time': task['time']}
     off = task['cron_offset']
@@ -194,7 +234,7 @@ def generate(src):
         oblige(s, "get_task_delay/post: cron schedule is due iff its expression matches the shifted current minute  [C13]",
                Implies(cronb, r == If(is_now(task['cron'], SHIFT), Val.intv(0), Val.none)), witness=W2, replay=rp)
         oblige(s, "get_task_delay/post: is_now consulted exactly once with (task.cron, shifted now)  [C13]",
-               Implies(cronb, And(g['is_now_calls'] == 1, g['is_now_a0'] == task['cron'], g['is_now_a1'] == SHIFT)), witness=W2, replay=rp)
+               Implies(cronb, And(g['is_now_calls'] == 1, g['is_now_a0'] == task['cron'], Val.is_dt(g['is_now_a1']), wallv(g['is_now_a1']) == wallv(SHIFT))), witness=W2, replay=rp)
         if not g['__explicit']: oblige(s, "get_task_delay/post: the clock is read exactly once  [C13/C14]", g['clock_reads'] == 1, witness=W2, replay=rp)
         timeb = And(task['cron'] == Val.none, task['time'] != Val.none)
         oblige(s, "get_task_delay/post: T <= now ==> due immediately (0)  [C14/C15]", Implies(And(timeb, T <= now_us), r == Val.intv(0)), witness=W2, replay=rp)
